@@ -119,9 +119,11 @@ pub fn check_sender(tr: &Trace) -> (Vec<MViol>, Summary) {
             if !elapsed_ok && !prev_partial {
                 let since = last_burst_t.map(|t| t_first - t).unwrap_or(0);
                 let clause = if prev_dup { "W3-retransmit-on-dup-ack" } else { "W3-early-retransmit" };
+                // in duplicate-packets mode an early retransmission also breaks "exactly N+1 times" (C16)
+                let props: &[&'static str] = if cfg.repeat > 1 { &["C08", "C16"] } else { &["C08"] };
                 push(
                     out,
-                    mv(clause, &["C08"], format!("blocks {:?} retransmitted {} ns after the previous transmission (< timeout {} ns) after answer [{}]", burst.iter().map(|b| b.0).take(6).collect::<Vec<_>>(), since, t_ns, prev_label), &[("ws", json!(cfg.ws))]),
+                    mv(clause, props, format!("blocks {:?} retransmitted {} ns after the previous transmission (< timeout {} ns) after answer [{}]", burst.iter().map(|b| b.0).take(6).collect::<Vec<_>>(), since, t_ns, prev_label), &[("ws", json!(cfg.ws))]),
                 );
             }
         }
